@@ -217,6 +217,31 @@ def check_case(case, acc):
         v = (CenterDistanceMatching(e2, g2).value, IOU2dMatching(e2, g2).value, IOU3dMatching(e2, g2).value)
         if abs(v[0] - cd) > 1e-9 or abs(v[1] - i2) > 1e-9 or abs(v[2] - i3) > 1e-9:
             bad("invariance:translation", "distance/IoU %s after a common translation, %s before" % (v, (cd, i2, i3)))
+    # map-scale common translation: only the centre distance keeps 1e-6 precision at coordinates ~1e5
+    acc.exec()
+    far = (89571.0, 42301.0)
+    vfar = CenterDistanceMatching(G.mk3d(dict(eb, x=eb["x"] + far[0], y=eb["y"] + far[1])), G.mk3d(dict(ga, x=ga["x"] + far[0], y=ga["y"] + far[1]))).value
+    if abs(vfar - cd) > 1e-6:
+        bad("invariance:far-translation", "centre distance %r after a common translation by %s, %r before" % (vfar, far, cd))
+    # scores are a function of the two boxes, however the objects got their state: change the estimate's heading / size in place
+    # (same position) after it has been scored once and compare with a freshly built object
+    if case["placement"].startswith("overlap") and case["z"] == "same":
+        import copy as _copy
+        from pyquaternion import Quaternion as _Q
+        from perception_eval.common.shape import Shape as _Shape, ShapeType as _ST
+        e_live = G.mk3d(eb)
+        _scores(e_live, g)
+        new_yaw = byaw + 0.6
+        e_live.state.orientation = _Q(axis=[0, 0, 1], angle=new_yaw)
+        e_live.state.shape = _Shape(_ST.BOUNDING_BOX, (sbb[0] * 0.8, sbb[1] * 1.1, sbb[2]))
+        e_copy = _copy.deepcopy(e_live)
+        fresh = G.mk3d(dict(eb, yaw=new_yaw, size=[sbb[0] * 0.8, sbb[1] * 1.1, sbb[2]]))
+        acc.exec(12)
+        want = _scores(fresh, g)
+        for nm, obj in (("mutated in place", e_live), ("deep copy", e_copy)):
+            got2 = _scores(obj, g)
+            if any(abs(x - y) > 1e-9 for x, y in zip(got2, want)):
+                bad("stale-after-in-place-change", "scores of an object whose heading/size were changed in place (%s) are %s, a freshly built identical box gives %s" % (nm, got2, want))
     for ego in G.ego_menu(_SEED[0])[1:]:
         acc.exec(4)
         tf = G.transforms(ego)
